@@ -13,9 +13,16 @@ INST = {
 # unit name -> (template, inst)
 UNITS = {
     "drv": ("units/drv.rs", None),
+    "feat.of64": ("units/feat.rs", "of64"),
+    "feat.f64": ("units/feat.rs", "f64"),
 }
 
 PLAN = {
+    "C01": dict(
+        verus=dict(quick=["feat.of64"], thorough=["feat.of64", "feat.f64"]),
+        kani=dict(quick=[], thorough=[]),
+        level="proof",
+    ),
     "C02": dict(
         verus=dict(quick=["drv"], thorough=["drv"]),
         kani=dict(quick=[], thorough=[]),
